@@ -30,6 +30,12 @@ Definition served (dir : string) (a : apk) : Prop :=
 Definition builders_ok (bs : list builder) : Prop :=
   forall dir a, In (BPackage dir a) bs -> served dir a.
 
+(* An ETag identifies one index content: whatever the origin answers at any
+   time, the body is the content the etag stands for.  (The origin is free to
+   change its revision between any two steps, and to go back to an old one.) *)
+Definition etag_names_content (srv : server) : Prop :=
+  forall t dir, snd (srv t dir) = origin (PIndex dir (fst (srv t dir))).
+
 (* the uncompressed tar the origin stands for under <h>.dat.tar is the gunzip
    of the data section it serves under <h>.dat.tar.gz *)
 Definition origin_gunzip (gunzip : content -> content) : Prop :=
